@@ -347,12 +347,18 @@ func (q *ProvideQueue) DrainDatastore(ctx context.Context, d ds.Batching) error 
 			return fmt.Errorf("error reading query result: %w", result.Error)
 		}
 
-		// Key format: "/position/prefix"
+		// Key format: "/position/prefix". For the empty prefix the key is just
+		// "/position": ds.NewKey strips the trailing slash Persist wrote.
 		parts := strings.Split(strings.TrimPrefix(result.Key, "/"), "/")
-		if len(parts) != 2 {
+		var prefix bitstr.Key
+		switch len(parts) {
+		case 1:
+			// empty prefix
+		case 2:
+			prefix = bitstr.Key(parts[1])
+		default:
 			continue // Skip invalid keys
 		}
-		prefix := bitstr.Key(parts[1])
 
 		// Decode concatenated multihashes
 		keys, err := decodeMultihashes(result.Value)
